@@ -96,7 +96,23 @@ def rotation_spec():
                 "e": st.integers(2, 16),
             }
         ),
+        st.fixed_dictionaries({"k": st.just("e90"), "a": st.lists(st.integers(0, 3), min_size=3, max_size=3)}),
     )
+
+
+def _euler90(ks):
+    """Rotation by multiples of 90 degrees built from Euler angles with math.cos/sin, the way
+    users build orientations: entries are +-1 and residues ~6e-17 instead of exact zeros."""
+
+    def rz(k):
+        c, s_ = math.cos(k * math.pi / 2), math.sin(k * math.pi / 2)
+        return np.array([[c, -s_, 0.0], [s_, c, 0.0], [0.0, 0.0, 1.0]])
+
+    def rx(k):
+        c, s_ = math.cos(k * math.pi / 2), math.sin(k * math.pi / 2)
+        return np.array([[1.0, 0.0, 0.0], [0.0, c, -s_], [0.0, s_, c]])
+
+    return rz(ks[0]) @ rx(ks[1]) @ rz(ks[2])
 
 
 def generic_rotation_spec():
@@ -120,6 +136,8 @@ def rot(spec):
         return AXIS24[spec["i"]].copy()
     if k == "near":
         return _flush(AXIS24[spec["i"]] @ axis_angle_matrix(spec["axis"], 10.0 ** (-spec["e"])))
+    if k == "e90":
+        return _euler90(spec["a"])
     raise ValueError(k)
 
 
